@@ -14,6 +14,7 @@ fn main() {
         "c10" => c10::main(),
         "tables" => tables::main(&args[2..]),
         "gen" => vh::run_lines(vh::gen_case),
+        "strfacts" => vh::run_lines(vh::strfacts),
         _ => {
             eprintln!("usage: vh <c10|tables> ...");
             std::process::exit(2);
